@@ -1,8 +1,7 @@
 (* C08: the CSV splitter's decisions do not depend on how the input arrives.
    - stability: a record or header row decided before EOF is decided identically when more
      data follows (and at EOF);
-   - a "need more data" answer leaves the splitter's state unchanged (unless it strips a BOM:
-     that is F-C08-2);
+   - a "need more data" answer leaves the splitter's state unchanged;
    - hence bufio.Scanner's loop, seen as "buffered bytes + chunks still to come", delivers for
      every chunking exactly the records of the reader run over the whole input. *)
 From Verif Require Import Lib.Base Lib.Utf8 Model.Csv Proofs.CsvBase Proofs.CsvFuel
@@ -84,26 +83,44 @@ Proof.
   apply prefix_of_inv in E as [t ->]. rewrite <- app_assoc, prefix_of_app in H. discriminate.
 Qed.
 
-(* the guard under which a call strips no BOM *)
-Definition nobom (s : csv_st) (data : bytes) : Prop :=
-  st_noBOM s = true \/ prefix_of bom data = false.
+Lemma zdrop_app_le {A} k (l m : list A) : 0 <= k <= zlen l -> zdrop k (l ++ m) = zdrop k l ++ m.
+Proof.
+  intros H. unfold zdrop. rewrite skipn_app.
+  replace (Z.to_nat k - length l)%nat with 0%nat by (unfold zlen in H; lia). reflexivity.
+Qed.
 
-Lemma nobom_isbom s data : nobom s data -> negb (st_noBOM s) && prefix_of bom data = false.
-Proof. intros [-> | ->]; [reflexivity | apply andb_false_r]. Qed.
+Lemma length_zdrop {A} k (l : list A) : 0 <= k <= zlen l -> length (zdrop k l) = (length l - Z.to_nat k)%nat.
+Proof. intros H. unfold zdrop. apply skipn_length. Qed.
 
-Lemma nobom_prefix s d more : nobom s (d ++ more) -> nobom s d.
-Proof. intros [H | H]; [left; exact H | right; eapply prefix_of_app_false; exact H]. Qed.
+(* the BOM a call skips, what it then reads, and where its advance starts *)
+Definition isbom (s : csv_st) (data : bytes) : bool := negb (st_noBOM s) && prefix_of bom data.
+Definition bdy (s : csv_st) (data : bytes) : bytes := if isbom s data then zdrop 3 data else data.
+Definition a0 (s : csv_st) (data : bytes) : Z := if isbom s data then 3 else 0.
 
-(* one call without BOM, unfolded *)
-Lemma scan_nobom c s data stale nz e : nobom s data ->
+Lemma bdy_split s data : data = (if isbom s data then bom else []) ++ bdy s data.
+Proof.
+  unfold bdy. destruct (isbom s data) eqn:B; [|reflexivity]. unfold isbom in B.
+  apply andb_true_iff in B as [_ B]. apply prefix_of_inv in B as [t ->].
+  change 3 with (zlen bom). rewrite zdrop_app_len. reflexivity.
+Qed.
+
+Lemma bdy_len s data : a0 s data + zlen (bdy s data) = zlen data /\ 0 <= a0 s data <= 3.
+Proof.
+  pose proof (bdy_split s data) as H. unfold a0. destruct (isbom s data).
+  - split; [|lia]. rewrite H at 2. zl. cbn. lia.
+  - cbn [app] in H. rewrite <- H. lia.
+Qed.
+
+(* one call, unfolded *)
+Lemma scan_unfold c s data stale nz e :
   scan c s data stale nz e =
-    if e && (zlen data =? 0) then (s, ONeed)
+    if e && (zlen (bdy s data) =? 0) then (s, ONeed)
     else
-      match skip_lines c e (S (length data)) data 0 0 with
+      match skip_lines c e (S (length (bdy s data))) (bdy s data) (a0 s data) (a0 s data) with
       | SkNeed => (s, ONeed)
       | SkFuel => (s, OFuel)
       | SkLine line data2 adv skip =>
-          match parse_field c e (S (length data)) line data2 adv [] false with
+          match parse_field c e (S (length (bdy s data))) line data2 adv [] false with
           | PNeed => (s, ONeed)
           | PFuel => (s, OFuel)
           | PDone adv fields cr =>
@@ -119,17 +136,17 @@ Lemma scan_nobom c s data stale nz e : nobom s data ->
                 end
           end
       end.
-Proof. intros H. unfold scan. rewrite (nobom_isbom _ _ H). reflexivity. Qed.
+Proof. reflexivity. Qed.
 
-(* "need more data" does not touch the splitter's state (no BOM in the call) *)
-Lemma scan_need_state c s data stale nz e s' : nobom s data ->
+(* "need more data" does not touch the splitter's state *)
+Lemma scan_need_state c s data stale nz e s' :
   scan c s data stale nz e = (s', ONeed) -> s' = s.
 Proof.
-  intros Hb. rewrite scan_nobom by exact Hb.
-  destruct (e && (zlen data =? 0)); [intros H; injection H as <-; reflexivity|].
-  destruct (skip_lines c e (S (length data)) data 0 0) as [| |line data2 adv skip];
+  rewrite scan_unfold.
+  destruct (e && (zlen (bdy s data) =? 0)); [intros H; injection H as <-; reflexivity|].
+  destruct (skip_lines c e (S (length (bdy s data))) (bdy s data) (a0 s data) (a0 s data)) as [| |line data2 adv skip];
     try (intros H; injection H as <-; reflexivity); try discriminate.
-  destruct (parse_field c e (S (length data)) line data2 adv [] false) as [|adv' fields cr|];
+  destruct (parse_field c e (S (length (bdy s data))) line data2 adv [] false) as [|adv' fields cr|];
     try (intros H; injection H as <-; reflexivity); try discriminate.
   destruct ((st_row s =? 0) && c_header c); [discriminate|].
   destruct (slice_cap (data ++ stale) nz skip adv'); discriminate.
@@ -142,29 +159,51 @@ Definition decided (o : scan_out) : Prop :=
 Definition out_adv (o : scan_out) : Z :=
   match o with ORecord adv _ _ | OHeader adv _ => adv | _ => 0 end.
 
+(* more data cannot turn the beginning of the data into a BOM once a row was decided: a
+   proper prefix of the BOM holds no complete line *)
+Lemma isbom_stable c s data stale nz more :
+  decided (snd (scan c s data stale nz false)) -> isbom s (data ++ more) = isbom s data.
+Proof.
+  intros Hd. unfold isbom. destruct (st_noBOM s) eqn:Nb; [reflexivity|]. cbn [negb andb].
+  destruct (prefix_of bom data) eqn:B.
+  - apply prefix_of_inv in B as [t ->]. rewrite <- app_assoc. apply prefix_of_app.
+  - destruct (prefix_of bom (data ++ more)) eqn:B2; [|reflexivity]. exfalso.
+    destruct (prefix_of_split _ _ _ B2) as [E | (p2 & E & _ & _)]; [congruence|].
+    assert (H10 : nob 10 data).
+    { assert (Hb : nob 10 bom) by (repeat constructor; lia). rewrite E in Hb. apply nob_app in Hb as [Hb _]. exact Hb. }
+    rewrite scan_unfold in Hd. unfold bdy, a0, isbom in Hd. rewrite Nb, B in Hd. cbn [negb andb] in Hd.
+    rewrite skip_lines_S in Hd. unfold read_line in Hd. rewrite (cut_nl_none _ H10) in Hd. exact Hd.
+Qed.
+
 (* Stability: whatever arrives later (and whatever the buffer holds behind the data), the
    call returns the same advance, token, fields and state. *)
 Theorem scan_stable c s data stale nz more stale' nz' e' :
-  valid_sep (c_sep c) -> 0 <= nz -> 0 <= nz' -> nobom s (data ++ more) ->
+  valid_sep (c_sep c) -> 0 <= nz -> 0 <= nz' ->
   decided (snd (scan c s data stale nz false)) ->
   scan c s (data ++ more) stale' nz' e' = scan c s data stale nz false.
 Proof.
-  intros Hv Hnz Hnz' Hb Hd. pose proof (nobom_prefix _ _ _ Hb) as Hb0.
-  rewrite (scan_nobom c s (data ++ more)) by exact Hb.
-  rewrite (scan_nobom c s data) in * by exact Hb0. cbn [andb] in *.
-  destruct (skip_lines c false (S (length data)) data 0 0) as [| |line data2 adv skip] eqn:Sk;
+  intros Hv Hnz Hnz' Hd.
+  pose proof (isbom_stable c s data stale nz more Hd) as Hib.
+  pose proof (bdy_len s data) as [HBA HA].
+  assert (HB : bdy s (data ++ more) = bdy s data ++ more).
+  { unfold bdy. rewrite Hib. destruct (isbom s data) eqn:B; [|reflexivity].
+    rewrite zdrop_app_le; [reflexivity|]. unfold a0 in HBA. rewrite B in HBA. pose proof (zlen_nonneg (bdy s data)). lia. }
+  assert (HA' : a0 s (data ++ more) = a0 s data) by (unfold a0; rewrite Hib; reflexivity).
+  rewrite (scan_unfold c s (data ++ more)). rewrite (scan_unfold c s data) in *. rewrite HB, HA'.
+  set (B := bdy s data) in *. set (A := a0 s data) in *. cbn [andb] in *.
+  destruct (skip_lines c false (S (length B)) B A A) as [| |line data2 adv skip] eqn:Sk;
     try (cbn in Hd; contradiction).
   pose proof (skip_line_nonempty _ _ _ _ _ _ _ _ _ _ Sk) as Hline.
   pose proof (skip_acct c false _ _ _ _ _ _ _ _ Sk) as (_ & Sa & S1 & S2).
-  assert (Hdne : zlen (data ++ more) =? 0 = false).
+  assert (Hdne : zlen (B ++ more) =? 0 = false).
   { zl. pose proof (zlen_nonneg more). pose proof (zlen_nonneg data2). lia. }
   rewrite Hdne, andb_false_r.
-  assert (Hlen : (S (length data) <= S (length (data ++ more)))%nat) by (rewrite app_length; lia).
-  rewrite (skip_lines_mono c e' (S (length data)) (data ++ more) 0 0 (SkLine line (data2 ++ more) adv skip));
+  assert (Hlen : (S (length B) <= S (length (B ++ more)))%nat) by (rewrite app_length; lia).
+  rewrite (skip_lines_mono c e' (S (length B)) (B ++ more) A A (SkLine line (data2 ++ more) adv skip));
     [| apply skip_stable; exact Sk | discriminate | exact Hlen].
-  destruct (parse_field c false (S (length data)) line data2 adv [] false) as [|adv' fields cr|] eqn:P;
+  destruct (parse_field c false (S (length B)) line data2 adv [] false) as [|adv' fields cr|] eqn:P;
     try (cbn in Hd; contradiction).
-  rewrite (parse_field_mono c e' (S (length data)) (S (length (data ++ more))) line (data2 ++ more) adv [] false
+  rewrite (parse_field_mono c e' (S (length B)) (S (length (B ++ more))) line (data2 ++ more) adv [] false
              (PDone adv' fields cr));
     [| apply (proj1 (parse_stable c _)); exact P | discriminate | exact Hlen].
   destruct ((st_row s =? 0) && c_header c); [reflexivity|].
@@ -250,20 +289,21 @@ Qed.
 
 (* a row that the call before EOF could not decide and the call at EOF does decide extends
    to the end of the data *)
-Lemma scan_eof_all s data stale nz stale' nz' s' o : nobom s data ->
+Lemma scan_eof_all s data stale nz stale' nz' s' o :
   snd (scan c s data stale nz false) = ONeed ->
   scan c s data stale' nz' true = (s', o) -> decided o -> out_adv o = zlen data.
 Proof.
-  intros Hb. rewrite !scan_nobom by exact Hb. cbn [andb].
-  destruct (zlen data =? 0) eqn:Z0.
+  rewrite !scan_unfold. pose proof (bdy_len s data) as [HBA HA].
+  set (B := bdy s data) in *. set (A := a0 s data) in *. cbn [andb].
+  destruct (zlen B =? 0) eqn:Z0.
   { intros _ H. injection H as _ <-. contradiction. }
   cbn [andb].
-  destruct (skip_lines c true (S (length data)) data 0 0) as [| |line d adv1 skip1] eqn:SkT;
+  destruct (skip_lines c true (S (length B)) B A A) as [| |line d adv1 skip1] eqn:SkT;
     try (intros _ H; injection H as _ <-; contradiction).
   pose proof (skip_acct c true _ _ _ _ _ _ _ _ SkT) as (_ & Sa & _).
-  destruct (parse_field c true (S (length data)) line d adv1 [] false) as [|adv' fields cr|] eqn:PT;
+  destruct (parse_field c true (S (length B)) line d adv1 [] false) as [|adv' fields cr|] eqn:PT;
     try (intros _ H; injection H as _ <-; contradiction).
-  destruct (skip_lines c false (S (length data)) data 0 0) as [| |line0 d0 adv0 skip0] eqn:SkF.
+  destruct (skip_lines c false (S (length B)) B A A) as [| |line0 d0 adv0 skip0] eqn:SkF.
   - (* the non-EOF call ran out of complete lines while skipping *)
     intros _ H Hd. pose proof (skip_eof_all _ _ _ _ _ _ _ _ SkT SkF) as ->.
     destruct (proj1 (parse_acct c true Hsep _) _ _ _ _ _ _ _ _ PT) as (dF & Hs & Pa).
@@ -275,7 +315,7 @@ Proof.
   - (* same first line in both calls; the non-EOF call ran out inside a quoted field *)
     pose proof (skip_stable c _ _ _ _ _ _ _ _ [] true SkF) as SkT'. rewrite !app_nil_r in SkT'.
     rewrite SkT in SkT'. injection SkT' as <- <- <- <-.
-    destruct (parse_field c false (S (length data)) line d adv1 [] false) as [|a b cc|] eqn:PF.
+    destruct (parse_field c false (S (length B)) line d adv1 [] false) as [|a b cc|] eqn:PF.
     + intros _ H Hd. pose proof (proj1 (parse_eof_all _) _ _ _ _ _ _ _ _ PT PF) as Ha.
       assert (adv' = zlen data) by lia.
       destruct ((st_row s =? 0) && c_header c); [injection H as _ <-; exact H0|].
@@ -291,18 +331,19 @@ End EofAll.
 
 Definition is_header (o : scan_out) : Prop := match o with OHeader _ _ => True | _ => False end.
 
-Lemma scan_decided_facts c s data stale nz e s' o : valid_sep (c_sep c) -> nobom s data ->
+Lemma scan_decided_facts c s data stale nz e s' o : valid_sep (c_sep c) ->
   scan c s data stale nz e = (s', o) -> decided o ->
   1 <= out_adv o <= zlen data /\ st_noBOM s' = true /\ st_row s' = st_row s + 1 /\
   (is_header o -> st_row s = 0 /\ c_header c = true) /\ (o <> ONeed).
 Proof.
-  intros Hv Hb. rewrite scan_nobom by exact Hb.
-  destruct (e && (zlen data =? 0)); [intros H; injection H as _ <-; contradiction|].
-  destruct (skip_lines c e (S (length data)) data 0 0) as [| |line d adv1 skip1] eqn:Sk;
+  intros Hv. rewrite scan_unfold. pose proof (bdy_len s data) as [HBA HA].
+  set (B := bdy s data) in *. set (A := a0 s data) in *.
+  destruct (e && (zlen B =? 0)); [intros H; injection H as _ <-; contradiction|].
+  destruct (skip_lines c e (S (length B)) B A A) as [| |line d adv1 skip1] eqn:Sk;
     try (intros H; injection H as _ <-; contradiction).
   pose proof (skip_line_nonempty _ _ _ _ _ _ _ _ _ _ Sk) as Hline.
   pose proof (skip_acct c e _ _ _ _ _ _ _ _ Sk) as (_ & Sa & S1 & S2).
-  destruct (parse_field c e (S (length data)) line d adv1 [] false) as [|adv' fields cr|] eqn:P;
+  destruct (parse_field c e (S (length B)) line d adv1 [] false) as [|adv' fields cr|] eqn:P;
     try (intros H; injection H as _ <-; contradiction).
   destruct (proj1 (parse_acct c e Hv _) _ _ _ _ _ _ _ _ P) as (dF & [pre Ps] & Pa).
   assert (Hle : zlen dF <= zlen d) by (rewrite Ps; zl; pose proof (zlen_nonneg pre); lia).
@@ -312,15 +353,6 @@ Proof.
   - destruct (slice_cap (data ++ stale) nz skip1 adv'); intros E Hd; injection E as <- <-; try contradiction.
     cbn. repeat split; try lia; try discriminate; contradiction.
 Qed.
-
-Lemma zdrop_app_le {A} k (l m : list A) : 0 <= k <= zlen l -> zdrop k (l ++ m) = zdrop k l ++ m.
-Proof.
-  intros H. unfold zdrop. rewrite skipn_app.
-  replace (Z.to_nat k - length l)%nat with 0%nat by (unfold zlen in H; lia). reflexivity.
-Qed.
-
-Lemma length_zdrop {A} k (l : list A) : 0 <= k <= zlen l -> length (zdrop k l) = (length l - Z.to_nat k)%nat.
-Proof. intros H. unfold zdrop. apply skipn_length. Qed.
 
 (* ---- bufio.Scanner's loop, abstractly ----------------------------------------- *)
 
@@ -335,18 +367,17 @@ Variable c : csv_cfg.
 Hypothesis Hsep : valid_sep (c_sep c).
 
 Lemma arun_read_all : forall f1 s pend chunks eof,
-  nobom s (pend ++ concat chunks) -> 0 <= st_row s ->
+  0 <= st_row s ->
   (eof = true -> chunks = []) ->
   (eof = true -> st_row s = 0 -> pend <> [] -> snd (scan c s pend [] 0 false) = ONeed) ->
   (msr pend chunks eof < f1)%nat ->
   forall f2, (length (pend ++ concat chunks) < f2)%nat ->
   arun f1 c s pend chunks eof = read_all f2 c s (pend ++ concat chunks).
 Proof.
-  induction f1 as [|f IH]; intros s pend chunks eof Hb Hrow Heof Hprev Hm f2 Hf2; [lia|].
-  pose proof (nobom_prefix _ _ _ Hb) as Hb0.
+  induction f1 as [|f IH]; intros s pend chunks eof Hrow Heof Hprev Hm f2 Hf2; [lia|].
   (* reading once more: both sides keep talking about the same whole input *)
   assert (Hmore : forall s1 pend1, eof = false ->
-            nobom s1 (pend1 ++ concat chunks) -> 0 <= st_row s1 ->
+            0 <= st_row s1 ->
             (chunks = [] -> st_row s1 = 0 -> pend1 <> [] -> snd (scan c s1 pend1 [] 0 false) = ONeed) ->
             (length pend1 <= length pend)%nat ->
             forall f3, (length (pend1 ++ concat chunks) < f3)%nat ->
@@ -354,7 +385,7 @@ Proof.
             | [] => arun f c s1 pend1 [] true
             | ch :: rest => arun f c s1 (pend1 ++ ch) rest false
             end = read_all f3 c s1 (pend1 ++ concat chunks)).
-  { intros s1 pend1 -> Hb1 Hrow1 Hprev1 Hlen f3 Hf3. unfold msr in Hm.
+  { intros s1 pend1 -> Hrow1 Hprev1 Hlen f3 Hf3. unfold msr in Hm.
     destruct chunks as [|ch rest].
     - apply IH; auto. unfold msr. cbn [concat length] in *. lia.
     - cbn [concat] in *. rewrite app_assoc in *. apply IH; auto; try discriminate.
@@ -366,16 +397,15 @@ Proof.
     destruct (scan c s pend [] 0 true) as [s' o] eqn:Sc.
     destruct o as [|adv names|adv tok fields| |]; try reflexivity.
     + (* a header row decided only at EOF reaches the end of the input *)
-      destruct (scan_decided_facts c s pend [] 0 true s' _ Hsep Hb0 Sc I) as (Ha & _ & _ & Hh & _).
+      destruct (scan_decided_facts c s pend [] 0 true s' _ Hsep Sc I) as (Ha & _ & _ & Hh & _).
       destruct (Hh I) as [Hr0 _]. cbn [out_adv] in Ha.
       assert (Hne : pend <> []) by (intros ->; cbn in Ha; lia).
-      pose proof (scan_eof_all c Hsep s pend [] 0 [] 0 s' _ Hb0 (Hprev eq_refl Hr0 Hne) Sc I) as Hall.
+      pose proof (scan_eof_all c Hsep s pend [] 0 [] 0 s' _ (Hprev eq_refl Hr0 Hne) Sc I) as Hall.
       cbn [out_adv] in Hall. rewrite Hall. rewrite zdrop_all by lia. rewrite read_all_nil. reflexivity.
-    + destruct (scan_decided_facts c s pend [] 0 true s' _ Hsep Hb0 Sc I) as (Ha & Hnb & Hr & _ & _).
+    + destruct (scan_decided_facts c s pend [] 0 true s' _ Hsep Sc I) as (Ha & Hnb & Hr & _ & _).
       cbn [out_adv] in Ha. f_equal.
       pose proof (IH s' (zdrop adv pend) [] true) as IH'. cbn [concat] in IH'. rewrite app_nil_r in IH'.
       apply IH'; auto.
-      * left. exact Hnb.
       * lia.
       * intros _ Hr0. lia.
       * unfold msr in *. cbn [concat length] in *. rewrite length_zdrop by lia. unfold zlen in *. lia.
@@ -388,47 +418,43 @@ Proof.
     pose proof (scan_never_fuel c s pend [] 0 false) as Hnf. rewrite Sc in Hnf. cbn [snd] in Hnf.
     destruct o as [|adv names|adv tok fields| |].
     + (* need more data: the state is unchanged, read on *)
-      pose proof (scan_need_state _ _ _ _ _ _ _ Hb0 Sc) as ->.
+      pose proof (scan_need_state _ _ _ _ _ _ _ Sc) as ->.
       apply Hmore; auto. intros _ _ _. rewrite Sc. reflexivity.
     + (* header row *)
-      destruct (scan_decided_facts c s pend [] 0 false s' _ Hsep Hb0 Sc I) as (Ha & Hnb & Hr & Hh & _).
+      destruct (scan_decided_facts c s pend [] 0 false s' _ Hsep Sc I) as (Ha & Hnb & Hr & Hh & _).
       cbn [out_adv] in Ha. destruct (Hh I) as [Hr0 _].
       destruct f2 as [|f2]; [lia|]. cbn [read_all].
-      rewrite (scan_stable c s pend [] 0 (concat chunks) [] 0 true Hsep ltac:(lia) ltac:(lia) Hb)
+      rewrite (scan_stable c s pend [] 0 (concat chunks) [] 0 true Hsep ltac:(lia) ltac:(lia))
         by (rewrite Sc; exact I).
       rewrite Sc. f_equal. rewrite zdrop_app_le by lia. apply Hmore; auto.
-      * left. exact Hnb.
       * lia.
       * intros _ Hr1. lia.
       * rewrite length_zdrop by lia. unfold zlen in *. lia.
       * rewrite app_length in *. rewrite length_zdrop by lia. unfold zlen in *. lia.
     + (* record *)
-      destruct (scan_decided_facts c s pend [] 0 false s' _ Hsep Hb0 Sc I) as (Ha & Hnb & Hr & _ & _).
+      destruct (scan_decided_facts c s pend [] 0 false s' _ Hsep Sc I) as (Ha & Hnb & Hr & _ & _).
       cbn [out_adv] in Ha.
       destruct f2 as [|f2]; [lia|]. cbn [read_all].
-      rewrite (scan_stable c s pend [] 0 (concat chunks) [] 0 true Hsep ltac:(lia) ltac:(lia) Hb)
+      rewrite (scan_stable c s pend [] 0 (concat chunks) [] 0 true Hsep ltac:(lia) ltac:(lia))
         by (rewrite Sc; exact I).
       rewrite Sc. f_equal. rewrite zdrop_app_le by lia. apply IH.
-      * left. exact Hnb.
       * lia.
       * discriminate.
       * discriminate.
       * unfold msr in *. rewrite length_zdrop by lia. unfold zlen in *. lia.
       * rewrite app_length in *. rewrite length_zdrop by lia. unfold zlen in *. lia.
-    + destruct Hacc as [Hx Hy]. destruct Hb0 as [Hz | Hz]; congruence.
+    + contradiction.
     + congruence.
 Qed.
 
 (* Chunk independence: however the reader cuts the input into reads, the Scanner loop delivers
    the records (fields, $0, header names) of the reader run over the whole input. *)
 Theorem csv_chunk_independent chunks :
-  prefix_of bom (concat chunks) = false ->
   arun (S (msr [] chunks false)) c (mkSt false 0) [] chunks false = read_file c (concat chunks).
 Proof.
-  intros Hb. unfold read_file.
+  unfold read_file.
   pose proof (arun_read_all (S (msr [] chunks false)) (mkSt false 0) [] chunks false) as H.
   cbn [app] in H. apply H; try discriminate.
-  - right. exact Hb.
   - cbn. lia.
   - lia.
 Qed.
